@@ -89,7 +89,12 @@ mod common {
 
     /// Encodes the DNS payload of a packet.
     pub fn dns_payload(recs: &[Rec], zone: &dyn Fn(&str) -> String) -> Vec<u8> {
-        let mut packet = Packet::new_reply(0);
+        dns_payload_with_id(recs, zone, 0)
+    }
+
+    /// Same with a chosen DNS message id (the first two payload bytes: decides the byte order of payloads).
+    pub fn dns_payload_with_id(recs: &[Rec], zone: &dyn Fn(&str) -> String, id: u16) -> Vec<u8> {
+        let mut packet = Packet::new_reply(id);
         for r in recs {
             let owner = owner_name(r, zone);
             let name = Name::new_unchecked(&owner).into_owned();
@@ -836,13 +841,25 @@ mod c36 {
             _ => String::new(),
         };
         let zone = |zl: &str| if zl == "other" { other.clone() } else { secrets[zl].public().to_z32() };
+        // honest payloads carry DNS id 0x0100, so that a forged payload can be byte-wise smaller (id 0) or greater (id 0x0200)
+        const HONEST_ID: u16 = 0x0100;
         // relay payload of the packet currently accepted per (key, ts)
         let mut accepted: BTreeMap<(String, u64, u64), Vec<u8>> = BTreeMap::new();
         for (i, s) in b.steps.iter().enumerate() {
             let recs: Vec<Rec> = s.recs.iter().map(|r| Rec { v: concrete_v(r.v, s.ts, &s.signer), ..r.clone() }).collect();
-            let payload = dns_payload(&recs, &zone);
-            let bytes = packet_bytes(&secrets[&s.signer], ts_base + s.ts * 1_000_000, &payload, !s.sig_ok);
-            let body = bytes[32..].to_vec();
+            let body = if s.signer == "replay" {
+                // adversary: signature and timestamp of the packet stored for s.k, over another payload
+                let stored = if i == 0 { None } else { b.steps[i - 1].stored.get(&s.k) };
+                let victim = stored.and_then(|st| accepted.get(&(s.k.clone(), st.ts, st.pl))).expect("model: replay needs a stored packet");
+                let payload = dns_payload_with_id(&recs, &zone, if s.pl == 0 { 0 } else { 0x0200 });
+                assert_eq!(payload[..] > victim[72..], s.pl != 0, "concretisation: byte order of the forged payload");
+                let mut body = victim[..72].to_vec();
+                body.extend_from_slice(&payload);
+                body
+            } else {
+                let payload = dns_payload_with_id(&recs, &zone, HONEST_ID);
+                packet_bytes(&secrets[&s.signer], ts_base + s.ts * 1_000_000, &payload, !s.sig_ok)[32..].to_vec()
+            };
             let path = format!("/pkarr/{}", secrets[&s.k].public().to_z32());
             let (status, _) = http(http_addr, "PUT", &path, &body).await;
             let exp_status = if s.res == "rejected" { 400 } else { 204 };
